@@ -134,3 +134,35 @@ def fixpoint_flags(fn):
         if in_loop:
             out.append((l, info))
     return out
+
+
+def reaching_expr(fn, e, block, depth=3):
+    """Replace a user variable that is assigned more than once by the value that reaches `block`: the one definition that
+    dominates `block` and is dominated by every other dominating definition (None-safe: the tree is returned unchanged when
+    there is no such unique definition, or another definition lies on a path in between)."""
+    if not isinstance(e, tuple) or depth <= 0:
+        return e
+    if e[0] == "var" and len(e) > 2 and isinstance(e[2], int):
+        l = e[2]
+        defs = [(b, k, st) for (b, k, st) in fn.whole_defs(l)]
+        if len(defs) > 1:
+            dom = [d for d in defs if d[0] != block and fn.dominates(d[0], block)]
+            if dom:
+                last = [d for d in dom if all(fn.dominates(o[0], d[0]) for o in dom)]
+                others = [d for d in defs if d not in dom]
+                if len(last) == 1:
+                    b0 = last[0][0]
+                    # no other definition between the chosen one and the use
+                    between = fn.reach([b0], removed_nodes=[block]) if False else None
+                    blocked = False
+                    for o in others:
+                        if o[0] in fn.reach_from_succ(b0) and block in fn.reach([o[0]]) and not fn.dominates(block, o[0]):
+                            blocked = True
+                    if not blocked:
+                        b, k, st = last[0]
+                        if k == "t":
+                            from .mir import norm
+                            return ("call", norm(st.get("res") or st.get("callee")) or "<indirect>", [fn.deep(a) for a in st.get("args", [])], b)
+                        return reaching_expr(fn, fn.deep_rvalue(st["rv"]), b, depth - 1)
+        return e
+    return tuple(reaching_expr(fn, x, block, depth) if isinstance(x, tuple) else ([reaching_expr(fn, y, block, depth) for y in x] if isinstance(x, list) else x) for x in e)
